@@ -6,7 +6,7 @@ import numbergen
 from sx.api import assume, check, cover, untraced, pick, pickbool
 
 PROPERTY = 'C19'
-LABELS = ['C19.same_time_same_value', 'C19.inspect_pure', 'C19.order_independent', 'C19.instance_independent',
+LABELS = ['C19.read_leaves_time', 'C19.same_time_same_value', 'C19.inspect_pure', 'C19.order_independent', 'C19.instance_independent',
           'C19.context_restores_time', 'C19.push_pop_restores', 'C19.raises_again']
 EXPLANATION = ("Harness c19.prog: two instances with a call-counting dynamic value, a time-function generator that raises at time 0, "
                "and a numbergen.UniformRandom(name, seed, time_dependent=True); k symbolic operations (set time, advance, read, "
@@ -35,6 +35,7 @@ class P(param.Parameterized):
     d = param.Dynamic(default=None)
     u = param.Number(default=0)
     z = param.Number(default=0)
+    w = param.Number(default=0)
 
 
 def prog(k: int, o1: int, t1: int, o2: int, t2: int, o3: int, t3: int, o4: int, t4: int, o5: int, t5: int) -> None:
@@ -48,8 +49,11 @@ def prog(k: int, o1: int, t1: int, o2: int, t2: int, o3: int, t3: int, o4: int, 
             g = Gen()
             zf = lambda: 100 // tm()          # raises ZeroDivisionError at time 0
             mk = lambda: numbergen.UniformRandom(name='u', seed=1, time_dependent=True, time_fn=tm)
-            p = P(d=g, u=mk(), z=zf)
-            p2 = P(d=Gen(), u=mk(), z=zf)
+            ts = lambda: numbergen.TimeSampledFn(period=2, offset=1, time_fn=tm,
+                                                 fn=numbergen.UniformRandom(name='w', seed=3, time_dependent=True, time_fn=tm))
+            p = P(d=g, u=mk(), z=zf, w=ts())
+            p2 = P(d=Gen(), u=mk(), z=zf, w=ts())
+        wtable = {}
         utable = {}
         dtable = {}
         ctx = []           # saved times of open contexts
@@ -78,6 +82,11 @@ def prog(k: int, o1: int, t1: int, o2: int, t2: int, o3: int, t3: int, o4: int, 
                     check('C19.order_independent' if o == 2 else 'C19.instance_independent', utable[now] == u, dict(info, u=u, first=utable[now]))
                 utable[now] = u
                 check('C19.same_time_same_value', obj.u == u, info)
+                wv = obj.w
+                check('C19.read_leaves_time', tm() == now, dict(info, after=tm()))
+                if now in wtable:
+                    check('C19.order_independent' if o == 2 else 'C19.instance_independent', wtable[now] == wv, dict(info, sampled=True))
+                wtable[now] = wv
                 # a generator that fails at this time fails on every read at this time, and works at the others
                 for rep in range(2):
                     try:
